@@ -222,4 +222,204 @@ def init (flags k kc c cc : Nat) : St :=
 bits (IORING_SQ_CQ_OVERFLOW = bit 1, IORING_SQ_TASKRUN = bit 2) say -/
 def needsWakeup (flagsWord : Nat) : Bool := flagsWord % 2 == 1
 
+/-! ## C18: the KERNEL CONTRACT composed with the ring model
+
+Everything above is the wrapper (`getNextSqeSlot`, `flushSubmissionQueue`, `getNextCqe`, mirrored from
+/repo) plus the raw ring moves of the kernel (`kConsume1`, `kPost1`).  Below is the contract C18 assumes
+of the kernel, as an executable step relation over the same ring state:
+
+* `consume k`  — one submission batch: the kernel takes up to `k` published entries in ring order
+  (`kConsume`); every entry becomes an in-flight request, numbered by its position in consumption
+  order; an entry whose predecessor IN THE SAME BATCH carries IOSQE_IO_LINK is linked behind it.
+* `complete i` — the i-th in-flight request (ANY i: completions come in any order) finishes: exactly one
+  completion is generated for it, carrying the entry's `user_data` and `res` = the direct system
+  call's result (`Kern.sys`, uninterpreted) — or -ECANCELED when it is linked behind a request that
+  failed.  A linked request cannot finish before the request it is linked behind.  The completion goes
+  into the completion ring if no overflowed completion is waiting and the ring has room (`kPost1`),
+  otherwise to the tail of the kernel's overflow list (and IORING_SQ_CQ_OVERFLOW shows in the SQ flags).
+* `flushOvf n` — the kernel moves up to `n` overflowed completions, oldest first, into the ring while
+  there is room.
+* `idle` — (SQPOLL rings) the submission thread goes to sleep and raises IORING_SQ_NEED_WAKEUP; while it
+  sleeps nothing is consumed.  `wake` is the application's `if needs_wakeup() { io_uring_enter(SQ_WAKEUP) }`.
+-/
+
+abbrev U64 : Nat := 18446744073709551616
+/-- `-ECANCELED` (-125) as the bit pattern of the CQE's `res: i32` -/
+abbrev ECANCELED : Nat := 4294967171
+
+/-- what the kernel reads out of the 64 bytes of a submission entry (the entry's content is the `Nat`
+held in `St.sqMem`) and what system calls do — all uninterpreted -/
+structure Kern where
+  /-- the `user_data` field -/
+  ud : Nat → Nat
+  /-- IOSQE_IO_LINK is set in the `flags` field -/
+  link : Nat → Bool
+  /-- `sys n content`: the result of the direct system call the entry describes, executed as the n-th
+  submission (bit pattern of an i32) -/
+  sys : Nat → Nat → Nat
+  /-- `severs content res`: this result fails the request, i.e. cancels what is linked behind it
+  (per-opcode kernel rule) -/
+  severs : Nat → Nat → Bool
+
+/-- the 16 bytes of a completion entry as one number: `user_data: u64`, `res: i32`, `flags: u32 = 0` -/
+def cqeWord (ud res : Nat) : Nat := ud % U64 + U64 * (res % W)
+/-- what the application reads from a completion entry -/
+def cqeUd (w : Nat) : Nat := w % U64
+def cqeRes (w : Nat) : Nat := w / U64 % W
+
+/-- an in-flight request -/
+structure Req where
+  /-- position in consumption order (= in the order the application filled the entries) -/
+  seq : Nat
+  ent : Ent
+  /-- linked behind the request with this number -/
+  dep : Option Nat
+  deriving DecidableEq, Repr
+
+structure KSt where
+  ring : St
+  /-- IORING_SQ_NEED_WAKEUP is raised -/
+  needWake : Bool
+  /-- in flight: consumed, completion not yet generated -/
+  pend : List Req
+  /-- the kernel's overflow list: (request number, completion entry), oldest first -/
+  ovf : List (Nat × Nat)
+  /-- ghost: requests whose completion has been generated, in that order -/
+  done : List Nat
+  /-- ghost: requests that failed (for what is linked behind them) -/
+  failed : List Nat
+  /-- ghost: for every consumed entry, in order, what it was linked behind -/
+  deps : List (Option Nat)
+  /-- ghost: request number of every entry written to the completion ring, in order -/
+  postedSeq : List Nat
+
+/-- the SQ ring's flags word as the kernel maintains it -/
+def flagsWord (s : KSt) : Nat := (if s.needWake then 1 else 0) + (if s.ovf.isEmpty then 0 else 2)
+
+def tagReqs (K : Kern) : Nat → Option Nat → List Ent → List Req
+  | _, _, [] => []
+  | n, prev, e :: es => ⟨n, e, prev⟩ :: tagReqs K (n + 1) (if K.link e.val then some n else none) es
+
+def kConsumeK (K : Kern) (k : Nat) (s : KSt) : KSt × List Req :=
+  if s.needWake then (s, [])
+  else
+    let r := kConsume k s.ring
+    let rs := tagReqs K s.ring.consumed.length none r.2
+    ({ s with ring := r.1, pend := s.pend ++ rs, deps := s.deps ++ rs.map Req.dep }, rs)
+
+inductive KOut where
+  | app (o : Out)
+  | consumed (rs : List Req)
+  | noReq
+  | notReady
+  /-- request `seq` completed with this completion entry; `direct` = written to the ring (else overflow list) -/
+  | completed (seq w : Nat) (direct : Bool)
+  | flushedOvf (n : Nat)
+  | wake (b : Bool)
+  | idle
+  deriving DecidableEq, Repr
+
+def kComplete (K : Kern) (s : KSt) (i : Nat) : KSt × KOut :=
+  match s.pend[i]? with
+  | none => (s, .noReq)
+  | some r =>
+    let ready := r.dep.all fun m => s.done.contains m
+    if ready then
+      let cancelled := r.dep.any fun m => s.failed.contains m
+      let res := if cancelled then ECANCELED else K.sys r.seq r.ent.val
+      let fails := cancelled || K.severs r.ent.val res
+      let w := cqeWord (K.ud r.ent.val) res
+      let s1 : KSt := { s with pend := s.pend.eraseIdx i, done := s.done ++ [r.seq],
+                                failed := if fails then s.failed ++ [r.seq] else s.failed }
+      if s.ovf.isEmpty then
+        match kPost1 s.ring w with
+        | (ring1, true) => ({ s1 with ring := ring1, postedSeq := s.postedSeq ++ [r.seq] }, .completed r.seq w true)
+        | (_, false) => ({ s1 with ovf := s.ovf ++ [(r.seq, w)] }, .completed r.seq w false)
+      else ({ s1 with ovf := s.ovf ++ [(r.seq, w)] }, .completed r.seq w false)
+    else (s, .notReady)
+
+def kFlushOvf : Nat → KSt → KSt × Nat
+  | 0, s => (s, 0)
+  | n + 1, s =>
+    match s.ovf with
+    | [] => (s, 0)
+    | (q, w) :: rest =>
+      match kPost1 s.ring w with
+      | (_, false) => (s, 0)
+      | (ring1, true) =>
+        let r := kFlushOvf n { s with ring := ring1, ovf := rest, postedSeq := s.postedSeq ++ [q] }
+        (r.1, r.2 + 1)
+
+inductive KOp where
+  /-- application: `get_next_sqe_slot`, and on `Some` write an entry with this content -/
+  | get (v : Nat)
+  /-- application: `flush_submission_queue` -/
+  | flush
+  /-- application: `get_next_cqe` and read the returned entry -/
+  | reap
+  /-- application: `if needs_wakeup() { io_uring_enter(.., IORING_ENTER_SQ_WAKEUP) }` -/
+  | wake
+  | consume (k : Nat)
+  | complete (i : Nat)
+  | flushOvf (n : Nat)
+  | idle
+  deriving DecidableEq, Repr
+
+def kstep (K : Kern) (cd : Code) (s : KSt) : KOp → KSt × KOut
+  | .get v => let r := step cd s.ring (.get v); ({ s with ring := r.1 }, .app r.2)
+  | .flush => let r := step cd s.ring .flush; ({ s with ring := r.1 }, .app r.2)
+  | .reap => let r := step cd s.ring .reap; ({ s with ring := r.1 }, .app r.2)
+  | .wake =>
+    let b := needsWakeup (flagsWord s)
+    ({ s with needWake := if b then false else s.needWake }, .wake b)
+  | .consume k => let r := kConsumeK K k s; (r.1, .consumed r.2)
+  | .complete i => kComplete K s i
+  | .flushOvf n => let r := kFlushOvf n s; (r.1, .flushedOvf r.2)
+  | .idle => ({ s with needWake := s.needWake || (s.ring.flags / 2 % 2 == 1) }, .idle)
+
+def krun (K : Kern) (cd : Code) : KSt → List KOp → KSt × List KOut
+  | s, [] => (s, [])
+  | s, op :: ops =>
+    let r := kstep K cd s op
+    let q := krun K cd r.1 ops
+    (q.1, r.2 :: q.2)
+
+def kinit (flags k kc c cc : Nat) : KSt :=
+  { ring := init flags k kc c cc, needWake := false, pend := [], ovf := [], done := [], failed := [],
+    deps := [], postedSeq := [] }
+
+/-! the closed form of what the contract makes of the consumed entries: result and "failed" of the
+q-th request, from the entries and their link structure alone (no reference to completion order) -/
+
+def linkedBehind (deps : List (Option Nat)) (q : Nat) : Bool :=
+  match deps[q]? with
+  | some (some _) => true
+  | _ => false
+
+def outcomeOf (K : Kern) (q : Nat) (e : Option Ent) (cancelled : Bool) : Nat × Bool :=
+  match e with
+  | none => (0, false)
+  | some e =>
+    let res := if cancelled then ECANCELED else K.sys q e.val
+    (res, cancelled || K.severs e.val res)
+
+def outcome (K : Kern) (ents : List Ent) (deps : List (Option Nat)) : Nat → Nat × Bool
+  | 0 => outcomeOf K 0 ents[0]? false
+  | q + 1 => outcomeOf K (q + 1) ents[q + 1]? (linkedBehind deps (q + 1) && (outcome K ents deps q).2)
+
+/-- the completion entry the contract owes for the q-th consumed entry -/
+def expWord (K : Kern) (ents : List Ent) (deps : List (Option Nat)) (q : Nat) : Nat :=
+  match ents[q]? with
+  | none => 0
+  | some e => cqeWord (K.ud e.val) (outcome K ents deps q).1
+
+/-- a concrete kernel for the driver / the simulated kernel of harness/c18: entry content =
+`user_data + 2^64 * (flags + 256 * len)`; the "system call" is IORING_OP_NOP with an injected result
+(`res = len`), a negative result fails the request -/
+def nopKern : Kern where
+  ud v := v % U64
+  link v := v / U64 / 4 % 2 == 1
+  sys _ v := v / U64 / 256 % W
+  severs _ res := decide (2147483648 ≤ res % W)
+
 end TinyVerif.Ring
